@@ -7,7 +7,8 @@
 (* a "reset" event starts the next run.                                    *)
 (*   ev  : "set" | "read" | "clear" | "reset"     g : goroutine               *)
 (*   sym : "outer" | "inner"     i, j : outer / inner index of the value     *)
-(*   vg  : goroutine tag of the value (0 = absent)                            *)
+(*   vg  : goroutine tag of the value (0 = absent, -1 = the unknown probe value) *)
+(*   c   : 0 = the goroutine's own context, 1 / 2 = the type probe's child contexts *)
 (***************************************************************************)
 EXTENDS SplatConc, Json
 
@@ -23,23 +24,35 @@ Ev == Trace[l]
 Is(e) == l <= Len(Trace) /\ Ev.ev = e
 
 \* the value the event carries, in the specification's representation
-Logged == IF Ev.vg = 0 THEN Absent ELSE Item(Ev.vg, Ev.sym, Ev.i, Ev.j)
+Logged == IF Ev.vg = 0 THEN Absent
+          ELSE IF Ev.vg = -1 THEN Probe(Ev.g, Ev.sym)
+          ELSE Item(Ev.vg, Ev.sym, Ev.i, Ev.j)
+
+\* the context the event happened in
+EvCtx == IF Ev.c = 0 THEN Ctx[Ev.g] ELSE IF Ev.c = 1 THEN P1(Ev.g) ELSE P2(Ev.g)
 
 TSet == /\ Is("set")
-        /\ \/ (Ev.sym = "outer" /\ SetOuter(Ev.g) /\ values'["outer"][Ctx[Ev.g]] = Logged)
-           \/ (Ev.sym = "inner" /\ SetInner(Ev.g) /\ values'["inner"][Ctx[Ev.g]] = Logged)
+        /\ \/ (Ev.sym = "outer" /\ Ev.c = 0 /\ SetOuter(Ev.g))
+           \/ (Ev.sym = "inner" /\ Ev.c = 0 /\ SetInner(Ev.g))
+           \/ (Ev.sym = "outer" /\ Ev.c = 1 /\ ESetOuter(Ev.g))
+           \/ (Ev.sym = "inner" /\ Ev.c = 2 /\ ESetInner(Ev.g))
+        /\ values'[Ev.sym][EvCtx] = Logged
         /\ l' = l + 1
 
 TRead == /\ Is("read")
-         /\ \/ (Ev.sym = "outer" /\ ReadOuter(Ev.g))
-            \/ (Ev.sym = "inner" /\ ReadInner(Ev.g))
+         /\ \/ (Ev.sym = "outer" /\ Ev.c = 0 /\ ReadOuter(Ev.g))
+            \/ (Ev.sym = "inner" /\ Ev.c = 0 /\ ReadInner(Ev.g))
+            \/ (Ev.sym = "outer" /\ Ev.c = 1 /\ EReadOuter(Ev.g))
+            \/ (Ev.sym = "inner" /\ Ev.c = 2 /\ EReadInner(Ev.g))
          \* the implementation returned exactly what the specification's map holds
          /\ got'[Ev.g][Len(got'[Ev.g])] = Logged
          /\ l' = l + 1
 
 TClear == /\ Is("clear")
-          /\ \/ (Ev.sym = "outer" /\ ClearOuter(Ev.g))
-             \/ (Ev.sym = "inner" /\ ClearInner(Ev.g))
+          /\ \/ (Ev.sym = "outer" /\ Ev.c = 0 /\ (ClearOuter(Ev.g) \/ EClearOuter(Ev.g)))
+             \/ (Ev.sym = "inner" /\ Ev.c = 0 /\ ClearInner(Ev.g))
+             \/ (Ev.sym = "inner" /\ Ev.c = 2 /\ EClearInner(Ev.g))
+             \/ (Ev.sym = "outer" /\ Ev.c = 1 /\ EClearOuter2(Ev.g))
           /\ l' = l + 1
 
 \* next run: the previous one must have completed and left nothing behind
@@ -47,7 +60,7 @@ TReset == /\ Is("reset")
           /\ AllDone
           /\ \A s \in Syms, c \in CtxIds : values[s][c] = Absent
           /\ values' = [s \in Syms |-> [c \in CtxIds |-> Absent]]
-          /\ pc' = [g \in G |-> IF NOuter = 0 THEN PC("clear_o", 0, 0) ELSE PC("set_o", 1, 0)]
+          /\ pc' = [g \in G |-> StartPC(g)]
           /\ got' = [g \in G |-> <<>>]
           /\ sched' = <<>>
           /\ l' = l + 1
